@@ -73,6 +73,9 @@ pub struct SinkState {
     pub boundary: usize,
     /// (op, k): the op fails (and the sink stays failed) at its first call with handed.len() >= k
     pub fail_at: Option<(Op, usize)>,
+    /// false: only the scripted operation fails (every time from the trigger on), the others keep
+    /// succeeding; true: once it has failed, every operation of the sink fails
+    pub fail_sticky: bool,
     pub errored: bool,
     pub errored_at_handed: usize,
     pub calls: [u64; 4],
@@ -98,6 +101,7 @@ impl SinkState {
             gate_open,
             boundary: boundary.max(1),
             fail_at: None,
+            fail_sticky: true,
             errored: false,
             errored_at_handed: 0,
             calls: [0; 4],
@@ -263,13 +267,15 @@ impl MockSink {
     }
     /// returns true if this call must fail
     fn should_fail(s: &mut SinkState, op: Op) -> bool {
-        if s.errored {
+        if s.errored && s.fail_sticky {
             return true;
         }
         if let Some((fop, k)) = s.fail_at {
             if fop == op && s.handed.len() >= k {
+                if !s.errored {
+                    s.errored_at_handed = s.handed.len();
+                }
                 s.errored = true;
-                s.errored_at_handed = s.handed.len();
                 return true;
             }
         }
